@@ -184,6 +184,57 @@ class SymItemList:
         return f"SymItemList({self.name})"
 
 
+class SymNumList:
+    """list of numbers (e.g. calendar years) of symbolic length, strictly increasing:  y(0) < y(1) < ...
+    supports the slices items[:-1], items[1:] (views) and np.array(view)."""
+
+    def __init__(self, name, n, increasing=True, fn=None):
+        self.name = name
+        self.n = n
+        if fn is None:
+            f = z3.Function(f"y_{name}", z3.IntSort(), z3.RealSort())
+            self.fn = lambda j: f(to_int(j))
+            if increasing:
+                zn = to_int(n)
+                ctx().add_trigger(f"y_{name}", lambda j: z3.And(z3.Implies(z3.And(j >= 0, j + 1 < zn), f(j + 1) > f(j)), z3.Implies(z3.And(j >= 1, j < zn), f(j) > f(j - 1))))
+        else:
+            self.fn = fn
+
+    def __symlen__(self):
+        return self.n
+
+    def __getitem__(self, k):
+        if isinstance(k, slice):
+            if k.step not in (None, 1):
+                raise core.Unsupported("stepped slice of symbolic number list")
+            lo = 0 if k.start is None else k.start
+            hi = self.n if k.stop is None else k.stop
+            if isinstance(lo, int) and lo < 0:
+                lo = self.n + lo
+            if isinstance(hi, int) and hi < 0:
+                hi = self.n + hi
+            base = self.fn
+            return SymNumList(self.name, hi - lo, fn=(lambda j, lo=lo: base(to_int(j) + to_int(lo))))
+        if isinstance(k, int) and k < 0:
+            k = self.n + k
+        return wrap(self.fn(k))
+
+    def __iter__(self):
+        raise core.Unsupported("iteration over symbolic number list")
+
+    def to_symarr(self):
+        from . import symnp
+
+        fn = self.fn
+        return symnp.SymArr.fresh((self.n,), lambda idx: fn(idx[0]))
+
+    def __deepcopy__(self, memo):
+        return self
+
+    def __copy__(self):
+        return self
+
+
 def make_dimension(letter, name=None, n=None, lo=1, tag=None):
     from flodym.dimensions import Dimension
 
